@@ -27,8 +27,33 @@ fn chains(log: &mut Log, rng: &mut Rng, m: &M, k: usize) {
     log.call("lcskpp", json!({"m": pairs(m)}), || {
         let r = sparse::lcskpp(m, k);
         path = r.path.clone();
-        json!({"path": r.path, "score": r.score})
+        let dp: Vec<Value> = r.dp_vector.iter().map(|&(sc, prev)| json!([sc, prev])).collect();
+        json!({"path": r.path, "score": r.score, "dp": dp})
     });
+    if k == 1 && path.len() > 1 {
+        log.oblige("k_equals_1_chain");
+    }
+    if m.len() >= 4
+        && m.windows(2).any(|w| w[0].0 == w[1].0)
+        && m.iter().any(|a| m.iter().any(|b| a.1 == b.1 && a.0 != b.0))
+    {
+        log.oblige("matches_sharing_x_and_sharing_y");
+    }
+    // the documented precondition: an unsorted list (two neighbours swapped) is refused
+    if m.len() >= 2 && m.len() % 3 == 0 {
+        let mut u = m.clone();
+        let i = m.len() / 2;
+        u.swap(i - 1, i);
+        log.call("lcskpp_unsorted", json!({"m": pairs(&u)}), || {
+            let r = sparse::lcskpp(&u, k);
+            json!({"path": r.path, "score": r.score})
+        });
+        log.call("sdpkpp_unsorted", json!({"m": pairs(&u)}), || {
+            let r = sparse::sdpkpp(&u, k, 1, -1, -1);
+            json!({"path": r.path, "score": r.score})
+        });
+        log.oblige("unsorted_match_list_offered");
+    }
     // coverage of the two kinds of chain steps (looks at the returned path only to count)
     for w in path.windows(2) {
         if w[0] < m.len() && w[1] < m.len() {
@@ -149,7 +174,7 @@ fn mutate(rng: &mut Rng, x: &[u8], alpha: &[u8], rate: u64) -> Vec<u8> {
 fn random_sorted_pairs(rng: &mut Rng, variant: u64, k: usize) -> M {
     let range = rng.range(3, 30) as u32;
     let mut m: M = vec![];
-    match variant % 4 {
+    match variant % 5 {
         0 => {
             let n = rng.range(1, 40);
             for _ in 0..n {
@@ -176,6 +201,20 @@ fn random_sorted_pairs(rng: &mut Rng, variant: u64, k: usize) -> M {
                     if rng.chance(2, 3) {
                         m.push((i * step, j * step + (i % 2)));
                     }
+                }
+            }
+        }
+        4 => {
+            // a few full rows and columns: many matches with equal x, many with equal y
+            let g = rng.range(4, 9) as u32;
+            for _ in 0..rng.range(1, 3) {
+                let x = rng.below(g as u64) as u32;
+                for j in 0..g {
+                    m.push((x, j));
+                }
+                let y = rng.below(g as u64) as u32;
+                for i in 0..g {
+                    m.push((i, y));
                 }
             }
         }
